@@ -25,7 +25,7 @@ RULE = ("A: every function exported by both modules on its domain - all hex stri
         "weight<=2 frames and byte sweeps for crc (both encode modes), the C02 address corpus for icao, floor around "
         "integers, cprNL on a grid + every float near the breakpoints, all 8192 13-bit codes for squawk/altitude (all "
         "DF carriers for idcode/altcode), all 2048 Gray codes, data/allzeros/wrongstatus on payload alphabets x every "
-        "(status, msb, lsb) triple the library uses, is_icao_assigned at every block boundary +-1; B: ~130 public "
+        "(status, msb, lsb) triple the library uses, is_icao_assigned at every block boundary +-1, every sequence of <= 3 calls over the frame-level functions on one frame string; B: ~130 public "
         "decoders on a DF x TC x subtype x length x payload corpus + the repository's sample CSVs under both "
         "configurations; distinct = distinct (function, argument) pairs")
 ASSUMPTIONS = [
@@ -184,6 +184,17 @@ def corpusA(part, seed=0):
             d = format(mb, "056b")
             for t in triples:
                 yield "wrongstatus", (d,) + t
+    elif part == "seq":
+        # call sequences on one frame string: every sequence of <= 3 calls over the frame-level shared functions, the
+        # sequences concatenated in one process; py_common and the model are advanced in lockstep by judgeA
+        frames = ["A0001839CA3800315800007448D9", "8D406B902015A678D4D220AA4BDA", "5D484FDEA248F5", "20001718029FCD",
+                  "A800292DFFBBA9383FFCEB903D01", "02E19718EA9C4B"]
+        ops = [("crc", ()), ("crc", (True,)), ("icao", ()), ("df", ()), ("typecode", ()), ("altcode", ()), ("idcode", ()), ("allzeros", ())]
+        for m in frames:
+            for L in (1, 2, 3):
+                for seq in itertools.product(range(len(ops)), repeat=L):
+                    for oi in seq:
+                        yield ops[oi][0], (m,) + ops[oi][1]
     elif part == "assigned":
         edges = [0x200000, 0x27FFFF, 0x280000, 0x28FFFF, 0x500000, 0x5FFFFF, 0x600000, 0x67FFFF, 0x680000, 0x6F0000,
                  0x900000, 0x9FFFFF, 0xB00000, 0xBFFFFF, 0xD00000, 0xDFFFFF, 0xF00000, 0xFFFFFF, 0, 0x406B90]
@@ -197,7 +208,7 @@ def corpusA(part, seed=0):
             yield "is_icao_assigned", (x,)
 
 
-PARTS = ["conv", "dftc", "crc", "icao", "floor", "cprNL", "codes", "status", "assigned"]
+PARTS = ["conv", "dftc", "crc", "icao", "floor", "cprNL", "codes", "status", "assigned", "seq"]
 
 
 def w_partA(arg):
@@ -206,7 +217,7 @@ def w_partA(arg):
     acc.cov["states"] = 0
     acc.cov["transitions"] = 0
     for i, (fname, args) in enumerate(corpusA(part, seed)):
-        if i % step != lo:
+        if (i // 256) % step != lo:          # contiguous blocks: consecutive corpus items stay in one process, in order
             continue
         if fname not in SHARED:
             continue
@@ -311,7 +322,7 @@ def w_partC(arg):
         n = 0
         for p in PARTS:
             for i, (fname, args) in enumerate(corpusA(p, 0)):
-                if p in ("conv", "status", "crc") and i % 3:
+                if p in ("conv", "status", "crc") and (i // 64) % 3:
                     continue
                 if not hasattr(ext, fname):
                     continue
